@@ -29,10 +29,11 @@ enum Motif {
     MUpperFace,         // 1 particle at the centre, but the last leaf's particle sits exactly on the upper box face/corner
     MUlpInside,         // 1 particle one ulp inside the lower faces of the leaf (real coordinate nudged)
     MUlpBelow,          // 1 particle one ulp below the upper faces of the leaf
+    MVaried,            // 1, 2 or 3 particles depending on the leaf ordinal (adjacent leaves hold different numbers of particles)
     MotifCount
 };
 inline const char* motifName(int m){
-    static const char* n[] = {"centre","mixed","corner","two","two-same","upper-face","ulp-inside","ulp-below"};
+    static const char* n[] = {"centre","mixed","corner","two","two-same","upper-face","ulp-inside","ulp-below","varied"};
     return n[m];
 }
 
@@ -51,6 +52,7 @@ inline void addMotifParticles(std::vector<Particle>& parts, const Coord& leaf, c
         if(lastLeaf){ for(int d = 0 ; d < dim ; ++d) if(leaf[d] == cells-1) p.lat[d] = 4*cells; }
         parts.push_back(p); break;
     case MUlpInside: base(0); for(int d = 0 ; d < dim ; ++d) p.nudge[d] = 1; parts.push_back(p); break;
+    case MVaried: { const long n = 1 + (leafOrdinal % 3); const long offs[3] = {1, 3, 2}; for(long k = 0 ; k < n ; ++k){ base(offs[k]); parts.push_back(p); } break; }
     case MUlpBelow: base(4); for(int d = 0 ; d < dim ; ++d) p.nudge[d] = -1; parts.push_back(p); break;
     default: break;
     }
